@@ -278,6 +278,19 @@ def run_als(case, ctx):
         k0 = int(rng.integers(d))
         w[I[:, k0] == int(rng.integers(n[k0]))] = 0.
         ctx.event('zero-weights')
+    elif w is not None and rng.random() < 0.45:
+        # weights as they are often kept: repetition counts in a narrow
+        # integer dtype, float32, or one constant for all samples
+        form = int(rng.integers(5))
+        if form < 3:
+            w = rng.integers(1, 9, size=m).astype([np.uint8, np.int8,
+                np.int16][form])
+        elif form == 3:
+            w = rng.uniform(0.5, 2, size=m).astype(np.float32)
+        else:
+            w = np.full(m, float(rng.choice([0.25, 3., 4.])))
+        ctx.event('weights-form:' + str(w.dtype) + (':constant'
+            if form == 4 else ''))
     Y0 = gen.cores(rng, n, r, 'normal')
     nswp = int(rng.integers(1, 6))
     traj = []
